@@ -106,3 +106,24 @@ Theorem C19_last_file_is_file_of_last_sample : forall c st bl vec,
               w_cur st' = Some (Fk c (c_start c + w_gi st' - 1)).
 Proof. exact last_file_is_file_of_last_sample. Qed.
 Print Assumptions C19_last_file_is_file_of_last_sample.
+
+(* the public rf_write_blocks in continuous mode: the extension splits the call into one C call per
+   block; arrays that pass the Python validation are accepted as a whole, the call returns the cursor
+   after its last block and has exactly the effect of the Spec steps of its blocks (R is the
+   refinement relation of the layout: `refines c` when chunked, `refines_u c` when not); any other
+   call raises ValueError and changes nothing.  Un-chunked continuous layout: *)
+Theorem C19_rf_write_blocks_continuous_unchunked : forall c ps s G D vec,
+  vcfg c -> c_chunk c = false -> c_cont c = true -> (1 < length G)%nat ->
+  PyInv (refines_u c) ps s -> first_nonneg (combine G D) ->
+  if py_arrays_ok (s_cur s) (zlen vec) G D
+  then exists st', snd (py_rf_write_blocks c ps G D vec) =
+                     mkPy (w_gi st') (p_written ps + zlen vec) (p_gap ps + ((w_gi st' - p_next ps) - zlen vec)) false st' /\
+                   fst (py_rf_write_blocks c ps G D vec) = (OK, w_gi st') /\
+                   refines_u c st' (fold_left (spec_step c) (blocks_of G D vec (zlen vec)) s)
+  else (exists code, py_rf_write_blocks c ps G D vec = ((ValueError, code), ps)).
+Proof.
+  intros c ps s G D vec Hc Hch Hco. apply (py_rf_write_blocks_continuous c (refines_u c)); try assumption.
+  - intros st s0 H. exact (ru_cur _ _ _ H).
+  - apply unchunked_R_call; assumption.
+Qed.
+Print Assumptions C19_rf_write_blocks_continuous_unchunked.
